@@ -201,7 +201,12 @@ def derived(ctx):
         try:
             mk = lambda: OperatedM(OperV(), [SentV('s0'), SentV('s1')])
             fi, paths = run_on(ctx, mk, attr, lambda s: ())
-            ok = all(pr.kind == 'return' and isinstance(pr.value, SetE) and pr.value.norm() == frozenset(Spec(attr, x).key() for x in s.operands) for pr, s, a in paths) and len(paths) == 1
+            def oks(pr, s):
+                if pr.kind != 'return' or not isinstance(pr.value, SetE): return False
+                rep = operand_reps(pr, s.operands)
+                def kk(sp): return (sp.fn,) + tuple(('S', rep.get(a_.name, a_.name)) if isinstance(a_, SentV) else a_ for a_ in sp.args) if isinstance(sp, Spec) else sp
+                return frozenset(kk(p) for p in pr.value.parts) == frozenset(kk(Spec(attr, x)) for x in s.operands)
+            ok = all(oks(pr, s) for pr, s, a in paths) and len(paths) >= 1
             ctx.add(enum_ob(name, ok, where=fi.where, clause=f'{attr}(Oper(o, s0, s1)) = {attr}(s0) ∪ {attr}(s1)', cex=dict(got=[repr(getattr(pr.value, "parts", pr.value)) for pr, s, a in paths])))
         except Outside as e:
             ctx.add_result(Result(name, 'unknown', detail=f'outside subset: {e}'))
@@ -216,8 +221,10 @@ def derived(ctx):
                 if parts is None: return False
                 parts = [p.spec if isinstance(p, X.SegTok) else p for p in parts]
                 want = ([s.oper] if head else []) + [Spec(attr, x) for x in s.operands]
-                return len(parts) == len(want) and all((a is b) or (isinstance(a, Spec) and a == b) for a, b in zip(parts, want))
-            ok = all(pr.kind == 'return' and okp(pr, s) for pr, s, a in paths) and len(paths) == 1
+                rep = operand_reps(pr, s.operands)
+                def kk(sp): return (sp.fn,) + tuple(('S', rep.get(a_.name, a_.name)) if isinstance(a_, SentV) else a_ for a_ in sp.args)
+                return len(parts) == len(want) and all((a is b) or (isinstance(a, Spec) and isinstance(b, Spec) and kk(a) == kk(b)) for a, b in zip(parts, want))
+            ok = all(pr.kind == 'return' and okp(pr, s) for pr, s, a in paths) and len(paths) >= 1
             ctx.add(enum_ob(name, ok, where=fi.where, clause=f'{attr}(Oper(o, s0, s1)) = {"(o,) ++ " if head else ""}{attr}(s0) ++ {attr}(s1) (prefix order)', cex=dict(got=[repr(getattr(pr.value, "parts", pr.value)) for pr, s, a in paths])))
         except Outside as e:
             ctx.add_result(Result(name, 'unknown', detail=f'outside subset: {e}'))
@@ -300,6 +307,16 @@ def lazy_wrapper(ctx):
     except Outside as e:
         ctx.add_result(Result('C15.lazy.wrapper', 'unknown', detail=f'outside subset: {e}', where=where))
 
+def operand_reps(pr, operands):
+    "operands the path condition forces to be equal sentences are represented by the first of them"
+    rep = {}
+    ops = [o for o in operands if isinstance(o, SentV)]
+    for i, a in enumerate(ops):
+        for b in ops[:i]:
+            sol = z3.Solver(); sol.add(pr.pc); sol.add(a.id != b.id)
+            if sol.check() == z3.unsat: rep[a.name] = rep.get(b.name, b.name); break
+    return rep
+
 def tools_substitute(ctx):
     from pytableaux import tools as T
     from pyvc.world import World
@@ -331,6 +348,11 @@ def bounded_walk(ctx):
             for v in (x, y): lvl1.append(q(v, s))
     for s, t in itertools.product(base[:6], repeat=2): lvl1.append(s & t)
     sents = list(lvl1)
+    # binary operators over compound operands, equal operands included (sequence-valued attributes count repetitions)
+    comp = [~base[0], Operator.Possibility(base[0]), Quantifier.Existential(x, F(x)), Quantifier.Universal(y, G(x, y)) if False else Quantifier.Universal(x, G(x, a)), ~F(a)]
+    for s, t in itertools.product(comp, repeat=2):
+        sents.append(s & t); sents.append(Operator.Disjunction(s, t))
+    sents.append(Operator.Conjunction(comp[0] & comp[0], comp[0] & comp[0]))
     if ctx.thorough:
         for s in lvl1[:60]:
             sents.append(Operator.Conditional(s, lvl1[3])); sents.append(Quantifier.Universal(y, s)); sents.append(Operator.Possibility(s))
